@@ -564,3 +564,18 @@ def c16(tier, rep):
     rep.set("option_selections", d["selections"] if d else 0)
     rep.set("rule", "E1: all 65 ordered duplicate-free selections of the four options and every selection with one duplicate inserted at every position x 2 value sets x 6 configs: accepted iff duplicate-free, parsed fields equal the written ones, futures_crate_path rejected for sync macros and used for every futures item; E2: depth profiles n<=3,d<=3 x {variadic macro joiner, fixed-arity fn joiner, lazy joiner that invokes its closures in REVERSE order, async joiners} in sync/spawn/async kinds with every failure subset: exactly one joiner event per step with > 1 active branches, arity = active count, result positions, lazy order; transpose_results(false) with a try-collecting joiner and injected joiner failures per step; futures_crate_path(::fut03) in a crate that has no dependency named futures")
     sample_family(rep, progs, fr)
+
+
+@check("C17", "exploration")
+def c17(tier, rep):
+    from . import fam_names as fn
+
+    dp = fn.dense_programs(tier)
+    fr = e2.run_family("c17dense", dp, extra_header=fn.NEST_HEADER)
+    judge_family(rep, fr)
+    np_ = fn.nesting_programs(tier)
+    fr2 = e2.run_family("c17nest", np_, extra_header=fn.NEST_HEADER)
+    judge_family(rep, fr2)
+    rep.set("distinct_nontrivial", len(dp) + len(np_))
+    rep.set("rule", "(a) dense programs: B branches x A actions per step x 2 steps with a block capture carrying a distinct constant on EVERY action for (B, A) over {2,11,12}^2 (thorough: + 24), 13-step branches (__sr10..__sr12), 13 and 24 branches in the thread-spawning kinds (__j10 vs __j1), fold/try_fold captures with operand index 0 and 1 in 12 branches — any clash of generated names makes a binding shadow another and changes a constant / the trace; (b) nesting: EVERY ordered pair of the 12 macros with the inner macro as operand value, inside a block capture and inside a handler (async inner in sync context through a nesting-free block_on, task-spawning inner inside a tokio runtime context); oracle: value + trace (per-branch projections) equal the reference applied recursively; every program is distinct and non-trivial by construction (distinct constants, logging callbacks)")
+    sample_family(rep, np_, fr2)
